@@ -2,11 +2,13 @@ SPECIFICATION Spec
 CONSTANTS
   Atoms <- Atoms3
   Probe = "D"
-  MaxLen = 4
+  MaxLen = 5
   MaxLen2 = 4
   LongLens <- Long58
   Templates <- TwoTmpl
   MaxPush = 2
   MaxCases = 3
+  MaxComp = 4
+  MaxMerge = 7
 INVARIANT TypeOK
 ACTION_CONSTRAINT Emit
